@@ -174,16 +174,28 @@ impl<'a, D> DfsDist<'a, D> {
     ///
     /// * `digraph`: The digraph.
     /// * `sources`: The source vertices.
+    ///
+    /// # Panics
+    ///
+    /// Panics if a source vertex isn't in the digraph.
     #[must_use]
     pub fn new<T>(digraph: &'a D, sources: T) -> Self
     where
         D: Order,
         T: Iterator<Item = usize>,
     {
+        let order = digraph.order();
+
         Self {
             digraph,
-            stack: sources.map(|u| (u, 0)).collect(),
-            visited: vec![false; digraph.order()],
+            stack: sources
+                .map(|u| {
+                    assert!(u < order, "u = {u} isn't in the digraph");
+
+                    (u, 0)
+                })
+                .collect(),
+            visited: vec![false; order],
         }
     }
 }
